@@ -47,6 +47,39 @@ def warm(workdir):
     return ok, msg, time.time() - t0
 
 
+def anchor_reach(pid, reached):
+    """Which functions of the property's anchored files ran (as Python) during this check, and which never did."""
+    import ast
+
+    try:
+        props = [json.loads(l) for l in open(os.path.join(VERIF, "properties.jsonl"))]
+        files = [p for p in props if p["id"] == pid][0]["anchors"]["files"]
+    except Exception:
+        return {}
+    out_hit, out_miss = [], []
+    for rel in files:
+        path = os.path.join(REPO, rel)
+        if not os.path.exists(path):
+            continue
+        names = []
+        tree = ast.parse(open(path).read())
+
+        def walk(node, prefix):
+            for ch in ast.iter_child_nodes(node):
+                if isinstance(ch, (ast.FunctionDef, ast.AsyncFunctionDef)):
+                    names.append(prefix + ch.name)
+                    walk(ch, prefix + ch.name + ".<locals>.")
+                elif isinstance(ch, ast.ClassDef):
+                    walk(ch, prefix + ch.name + ".")
+        walk(tree, "")
+        for n in names:
+            (out_hit if f"{rel}::{n}" in reached else out_miss).append(f"{rel}::{n}")
+    boring = ("__init__",)
+    return {"anchored_functions_executed": sorted(out_hit),
+            "anchored_functions_not_executed": sorted(m for m in out_miss if not m.endswith(boring)),
+            "reach_note": "function-level reach via sys.monitoring in every shard; numba-compiled metric bodies and property getters/setters that were never called are listed as not executed"}
+
+
 def load_known():
     path = os.path.join(VERIF, "known_findings.json")
     if not os.path.exists(path):
@@ -131,7 +164,9 @@ def run(pid, tier, seed, replay, workdir, t0):
     obs = collections.Counter()
     cells = set()
     samples, violations, herrs = [], [], []
+    reached = set()
     for r in reports:
+        reached.update(r.get("reached", []))
         hashes.update(r["nontrivial_hashes"])
         obs.update(r["obs"])
         cells.update(r["cells"])
@@ -176,6 +211,7 @@ def run(pid, tier, seed, replay, workdir, t0):
         "violation_keys": sorted({v["key"] for v in new_v}),
         "exhaustive": False,
     }
+    cov.update(anchor_reach(pid, reached))
     if hasattr(mod, "evidence_extra"):
         try:
             cov.update(mod.evidence_extra(obs, cells))
